@@ -1848,6 +1848,19 @@ func patchCode(context *funcContext) { // {{{
 	}
 	moven := 0
 	code := context.Code.List()
+	// a run of MOVEs ending before pc becomes one MOVEN
+	mergeMoves := func(pc int) {
+		if moven > 1 {
+			context.Code.SetOpCode(pc-moven, OP_MOVEN)
+			context.Code.SetC(pc-moven, intMin(moven-1, opMaxArgsC))
+		}
+		moven = 0
+	}
+	// instructions a jump can land on: a MOVEN must not extend across one of them
+	jumpTargets := make(map[int]struct{}, len(context.labelPc))
+	for _, labelpc := range context.labelPc {
+		jumpTargets[labelpc+1] = struct{}{}
+	}
 	for pc := 0; pc < len(code); pc++ {
 		inst := code[pc]
 		curop := opGetOpCode(inst)
@@ -1898,13 +1911,12 @@ func patchCode(context *funcContext) { // {{{
 
 		// bulk move optimization(reducing op dipatch costs)
 		if curop == OP_MOVE {
+			if _, ok := jumpTargets[pc]; ok {
+				mergeMoves(pc)
+			}
 			moven++
 		} else {
-			if moven > 1 {
-				context.Code.SetOpCode(pc-moven, OP_MOVEN)
-				context.Code.SetC(pc-moven, intMin(moven-1, opMaxArgsC))
-			}
-			moven = 0
+			mergeMoves(pc)
 		}
 	}
 	maxreg++
